@@ -246,6 +246,7 @@ def run(res: Results, idx: Index, tier: str) -> None:
     rule_e(res, idx)
     rule_f(res, idx)
     rule_g(res, idx, tier)
+    rule_i(res, idx)
     # R-C06g: results inside loop bodies keep the shape JAX computed (no loop-context axis-0 override)
     from .c08 import rule_i as _aval_shape_rule
     _aval_shape_rule(res, idx, "R-C06g")
@@ -456,3 +457,49 @@ def rule_g(res: Results, idx: Index, tier: str) -> None:
             res.ok("R-C06h", f"{rel}:1", f"{rel}::no-body-memo", "no module-level memo table is read and written by the functions of this module", "")
         for inst in insts:
             res.add("R-C06h", inst.status, inst.site, f"R-C14g::{inst.key}", f"[C14 R-C14g] {inst.detail}", inst.func)
+
+
+# ---------------------------------------------------------------------------------------------- R-C06i
+_INT_CANON = {"_canon_int", "np.int32", "np.int64", "jnp.int32", "jnp.int64", "numpy.int32", "numpy.int64"}
+
+
+def rule_i(res: Results, idx: Index) -> None:
+    """`isinstance(True, int)` holds: a substitute that canonicalises Python integers among user values (loop carries,
+    operands) to int32 / int64 turns a Python bool into an integer unless the test excludes bool — the carried value then
+    has another element class than in JAX (fori_loop with a `True` carry returned int32)."""
+    res.rule("R-C06i", "integer canonicalisation of user values (loop carries) does not capture Python bools", floor=1)
+    n = 0
+    for m in idx.product_modules():
+        if "/plugins/" not in m.rel:
+            continue
+        for fi in m.funcs.values():
+            for x in walk_no_nested(fi.node):
+                if isinstance(x, ast.IfExp):
+                    test, body = x.test, [x.body]
+                elif isinstance(x, ast.If):
+                    test, body = x.test, list(x.body)
+                else:
+                    continue
+                var = None
+                for t in ast.walk(test):
+                    if isinstance(t, ast.Call) and (call_name(t) or "") == "isinstance" and len(t.args) == 2 and isinstance(t.args[0], ast.Name):
+                        els = t.args[1].elts if isinstance(t.args[1], ast.Tuple) else [t.args[1]]
+                        names = [src(e, 30) for e in els]
+                        if "int" in names and "bool" not in names:
+                            var = t.args[0].id
+                if var is None:
+                    continue
+                conv = [c for b in body for c in ast.walk(b) if isinstance(c, ast.Call) and (call_name(c) or "") in _INT_CANON and any(isinstance(a, ast.Name) and a.id == var for a in c.args)]
+                if not conv:
+                    continue
+                n += 1
+                key = f"{m.rel}::{fi.qualname}::int-canonicalisation::{var}"
+                site = f"{m.rel}:{x.lineno}"
+                excl = any(isinstance(t, ast.UnaryOp) and isinstance(t.op, ast.Not) and isinstance(t.operand, ast.Call) and (call_name(t.operand) or "") == "isinstance"
+                           and any(isinstance(a, ast.Name) and a.id == var for a in t.operand.args[:1]) and "bool" in src(t.operand.args[1], 40) for t in ast.walk(test))
+                if excl:
+                    res.ok("R-C06i", site, key, f"`{src(test, 70)}` excludes bool", fi.qualname)
+                else:
+                    res.violation("R-C06i", site, key, f"`{src(conv[0], 40)}` is applied whenever `{src(test, 60)}`; a Python bool is an int, so a boolean value among the user's values becomes an integer "
+                                  "(the exported carry / result is INT32 where JAX has bool)", fi.qualname)
+    res.analysed["int_canonicalisation_sites"] = n
